@@ -32,6 +32,7 @@ import (
 	"runtime/debug"
 	"runtime/pprof"
 	"sort"
+	"strconv"
 	"strings"
 	"sync"
 	"sync/atomic"
@@ -242,6 +243,30 @@ func dump(res *result) string {
 	return b.String()
 }
 
+const bigSrc = 16 << 10
+
+// dumpErrs is dump without the tree (inputs larger than bigSrc)
+func dumpErrs(res *result) string {
+	var b bytes.Buffer
+	if res.pan != nil {
+		fmt.Fprintf(&b, "PANIC: %v\n", res.pan)
+		return b.String()
+	}
+	if el, ok := res.err.(scanner.ErrorList); ok {
+		for i, e := range el {
+			if i == 40 {
+				fmt.Fprintf(&b, "... %d more\n", len(el)-i)
+				break
+			}
+			fmt.Fprintf(&b, "ERR %s\n", e.Error())
+		}
+	} else if res.err != nil {
+		fmt.Fprintf(&b, "ERR %v\n", res.err)
+	}
+	b.WriteString("(tree not dumped)\n")
+	return b.String()
+}
+
 func firstDiff(a, b string) string {
 	la, lb := strings.Split(a, "\n"), strings.Split(b, "\n")
 	for i := 0; i < len(la) || i < len(lb); i++ {
@@ -345,9 +370,9 @@ func report(c *caseID, what string, mk func() map[string]any) {
 	if c.ep == epExpr {
 		eps = "expr"
 	}
-	fam := c.family
-	if strings.HasPrefix(fam, "enum-") {
-		fam = "enum"
+	fam := c.family // enum-core, cmt-top, ... -> enum, cmt
+	if i := strings.IndexByte(fam, '-'); i > 0 {
+		fam = fam[:i]
 	}
 	class := what + ":" + fam + ":" + eps
 	classMu.Lock()
@@ -391,6 +416,8 @@ func (c *caseID) key(what string) string {
 
 type tally struct {
 	agree, undecided123, undecided125, undecidedNeither, okParse, errParse, errOutside int64
+	dirDecided, dirUndecided                                                           int64 // inputs of the cmt-*/linedir families that contain a line directive
+	errDecided                                                                         int64 // undecided inputs on which the references agree on the error list
 }
 
 func check(c *caseID, t *tally) {
@@ -402,6 +429,17 @@ func check(c *caseID, t *tally) {
 
 	detail := func(ref *result, extra string) map[string]any {
 		d := map[string]any{"src": string(c.src), "mode": c.mode, "entry": c.ep, "label": c.label, "note": extra}
+		if len(c.src) > bigSrc {
+			// nesting ladders: the tree dump of a 10^5-deep AST is quadratic in size; only the error lists are written out
+			// (the label regenerates the input: see ladderSource)
+			d["src"] = string(c.src[:200]) + fmt.Sprintf(" ...(%d bytes; regenerate from the label)", len(c.src))
+			d["fork"] = clip(dumpErrs(&f0))
+			if ref != nil {
+				d["ref"] = clip(dumpErrs(ref))
+				d["first_diff"] = firstDiff(dumpErrs(&f0), dumpErrs(ref))
+			}
+			return d
+		}
 		d["fork"] = clip(dump(&f0))
 		if ref != nil {
 			d["ref"] = clip(dump(ref))
@@ -437,8 +475,12 @@ func check(c *caseID, t *tally) {
 	} else {
 		t.errParse++
 	}
+	dir := hasDirective(c)
 	if sameResult(&a, &b) {
 		t.agree++
+		if dir {
+			t.dirDecided++
+		}
 		if !sameResult(&f0, &a) {
 			report(c, "differs", func() map[string]any {
 				return detail(&a, "go1.23.5 and go1.25.9 go/parser agree with each other, the fork differs")
@@ -452,6 +494,20 @@ func check(c *caseID, t *tally) {
 	// gnovm/tests/files/scope1.gno with `+` replaced by `goto`.  It is kept as an informational counter only.)
 	if c.mode&uint(goparser.AllErrors) != 0 && sandwich(f0.err, a.err, b.err) != "" {
 		t.errOutside++
+	}
+	if dir {
+		t.dirUndecided++
+	}
+	// The drift may be confined to the tree (e.g. go1.23.5 leaves FileStart/FileEnd unset in the empty file returned after a
+	// resolver bailout, go1.24+ sets them): where the two references report the identical error list, the fork must too.
+	if a.pan == nil && b.pan == nil && sameErr(a.err, b.err) {
+		t.errDecided++
+		if !sameErr(f0.err, a.err) {
+			report(c, "errors-differ", func() map[string]any {
+				return detail(&a, "go1.23.5 and go1.25.9 go/parser report the identical error list (their trees differ), the fork reports a different one")
+			})
+			return
+		}
 	}
 	switch {
 	case sameResult(&f0, &b):
@@ -525,6 +581,9 @@ func (t *tally) flush() {
 	r.OutcomeN("undecided_allerrors_fork_error_in_neither_ref(info)", t.errOutside)
 	r.OutcomeN("fork_parse_ok", t.okParse)
 	r.OutcomeN("fork_parse_errors", t.errParse)
+	r.OutcomeN("undecided_tree_only(error_lists_agree_and_are_judged)", t.errDecided)
+	r.OutcomeN("with_line_directive_decided", t.dirDecided)
+	r.OutcomeN("with_line_directive_undecided(go1.23 adjusted vs go1.25 raw lines)", t.dirUndecided)
 	nDecided.Add(t.agree)
 	nUndecided.Add(t.undecided123 + t.undecided125 + t.undecidedNeither)
 	r.EvalN(t.agree + t.undecided123 + t.undecided125 + t.undecidedNeither)
@@ -564,12 +623,13 @@ type frame struct {
 	name     string
 	ep       int
 	pre, suf string
+	raw      bool // pieces are concatenated without separators (comment-aware alphabets: `//line` must stay in column 1)
 }
 
 var frames = []frame{
-	{"file", epFile, "package p;", ""},
-	{"body", epFile, "package p; func _() {", "}"},
-	{"expr", epExpr, "", ""},
+	{"file", epFile, "package p;", "", false},
+	{"body", epFile, "package p; func _() {", "}", false},
+	{"expr", epExpr, "", "", false},
 }
 
 var fileModes = []uint{
@@ -603,10 +663,14 @@ func render(fr frame, alpha []string, idx []int) (src []byte, label string) {
 	var b strings.Builder
 	b.WriteString(fr.pre)
 	for _, i := range idx {
-		b.WriteByte(' ')
+		if !fr.raw {
+			b.WriteByte(' ')
+		}
 		b.WriteString(alpha[i])
 	}
-	b.WriteByte(' ')
+	if !fr.raw {
+		b.WriteByte(' ')
+	}
 	b.WriteString(fr.suf)
 	var l strings.Builder
 	l.WriteString(fr.name)
@@ -615,14 +679,17 @@ func render(fr frame, alpha []string, idx []int) (src []byte, label string) {
 		if j > 0 {
 			l.WriteByte(' ')
 		}
+		if fr.raw {
+			l.WriteString("<" + strings.ReplaceAll(alpha[i], "\n", `\n`) + ">")
+			continue
+		}
 		l.WriteString(strings.ReplaceAll(alpha[i], "\n", `\n`))
 	}
 	return []byte(b.String()), l.String()
 }
 
 // enumerate all sequences of exactly length n over alpha in frame fr; parallel over the first two positions
-func enumerate(fr frame, alphaName string, alpha []string, n int, allModes bool) (count int64, complete bool) {
-	modes := modesFor(fr, allModes)
+func enumerate(fr frame, family string, alpha []string, n int, modes []uint) (count int64, complete bool) {
 	A := len(alpha)
 	top := 1
 	split := 0
@@ -645,7 +712,7 @@ func enumerate(fr frame, alphaName string, alpha []string, n int, allModes bool)
 			if pos == n {
 				src, label := render(fr, alpha, idx)
 				for _, m := range modes {
-					c := caseID{family: "enum-" + alphaName, ep: fr.ep, mode: m, label: label, src: src}
+					c := caseID{family: family, ep: fr.ep, mode: m, label: label, src: src}
 					check(&c, &t)
 				}
 				cnt.Add(1)
@@ -834,6 +901,10 @@ func main() {
 	if os.Getenv("GOGC") == "" {
 		debug.SetGCPercent(400)
 	}
+	if len(os.Args) > 1 && os.Args[1] == "-ladderworker" {
+		ladderWorker(os.Args[2:])
+		return
+	}
 	r = vk.New("exploration")
 	if pf := os.Getenv("C21_PROF"); pf != "" {
 		f, _ := os.Create(pf)
@@ -842,6 +913,7 @@ func main() {
 		time.AfterFunc(20*time.Second, func() { pprof.StopCPUProfile(); f.Close(); os.Exit(3) })
 	}
 	r.SetBudget(88*time.Second, 25*time.Minute)
+	t0 := time.Now()
 	if r.ReplayIn != "" {
 		replay(r.ReplayIn)
 		return
@@ -888,12 +960,14 @@ func main() {
 		frames    []frame
 		n         int
 		allModes  bool
+		family    string // "" = "enum-"+alphaName
+		modes     []uint // nil = modesFor(frame, allModes)
 	}
 	fFile, fBody, fExpr := frames[0:1], frames[1:2], frames[2:3]
 	var plans, late []plan
 	upTo := func(name string, alpha []string, fr []frame, k int, all bool) {
 		for n := 0; n <= k; n++ {
-			plans = append(plans, plan{name, alpha, fr, n, all})
+			plans = append(plans, plan{alphaName: name, alpha: alpha, frames: fr, n: n, allModes: all})
 		}
 	}
 	if r.Quick() {
@@ -902,8 +976,8 @@ func main() {
 		upTo("decl12", decl12, fFile, 5, false)
 		upTo("stmt12", stmt12, fBody, 5, false)
 		upTo("expr12", expr12, fExpr, 5, false)
-		plans = append(plans, plan{"wide", wide, frames, 3, false})
-		plans = append(plans, plan{"core", core, frames, 4, false})
+		plans = append(plans, plan{alphaName: "wide", alpha: wide, frames: frames, n: 3})
+		plans = append(plans, plan{alphaName: "core", alpha: core, frames: frames, n: 4})
 	} else {
 		upTo("core", core, frames, 4, true)
 		upTo("wide", wide, frames, 3, true)
@@ -911,25 +985,80 @@ func main() {
 		upTo("stmt12", stmt12, fBody, 6, false)
 		upTo("expr12", expr12, fExpr, 6, false)
 		// after the corpus mutations (deepest level last: it is the one a budget cap should hit)
-		late = append(late, plan{"core", core, frames, 5, false})
+		late = append(late, plan{alphaName: "core", alpha: core, frames: frames, n: 5})
+	}
+	// comment-aware alphabets (comments.go): pieces concatenated raw, six frames
+	cmtDepth := func(all, pc, gno int) {
+		for _, cf := range cmtFrames {
+			fam, al, fr := "cmt-"+cf.fr.name, cf.alpha(), []frame{cf.fr}
+			for n := 0; n <= gno; n++ {
+				modes := fileModes
+				switch {
+				case n > pc:
+					modes = gnoMode
+					if r.Quick() {
+						plans = append(plans, plan{alphaName: fam + "-8", alpha: cf.alphaDeepest(), frames: fr, n: n, family: fam, modes: modes})
+					} else { // thorough: the deepest level runs after the corpus (it is the one a budget cap should hit)
+						late = append([]plan{{alphaName: fam, alpha: al, frames: fr, n: n, family: fam, modes: modes}}, late...)
+					}
+					continue
+				case n > all:
+					modes = pcModes
+				}
+				plans = append(plans, plan{alphaName: fam, alpha: al, frames: fr, n: n, family: fam, modes: modes})
+			}
+		}
+	}
+	if r.Quick() {
+		cmtDepth(3, 4, 5)
+	} else {
+		cmtDepth(4, 5, 6)
+	}
+	only := os.Getenv("C21_ONLY")
+	if only == "cmt" {
+		plans, late = nil, nil
+		cmtDepth(3, 4, 5)
 	}
 	if os.Getenv("C21_BENCH") != "" {
-		plans = []plan{{"core", core, frames, 3, true}}
+		plans = []plan{{alphaName: "core", alpha: core, frames: frames, n: 3, allModes: true}}
 	}
-	if os.Getenv("C21_ONLY") == "corpus" {
-		plans = nil
+	if only == "corpus" || only == "ladder" || only == "linedir" {
+		plans, late = nil, nil
+	}
+	// nesting ladders (ladder.go) run in worker subprocesses, concurrently with the in-process enumeration
+	ladderCh := make(chan ladderSummary, 1)
+	if os.Getenv("C21_BENCH") == "" && (only == "" || only == "ladder") {
+		par := 4
+		if only == "ladder" {
+			par, _ = strconv.Atoi(os.Getenv("C21_LPAR"))
+		}
+		go func() { ladderCh <- ladderPhase(r.Tier, par, t0.Add(r.Budget)) }()
+	} else {
+		ladderCh <- ladderSummary{complete: true}
 	}
 	exhaustive := true
+	lastPhase := time.Now()
+	phase := func(name string) { // progress line (wall clock; informational only)
+		fmt.Printf("  phase %-28s %6.1fs\n", name, time.Since(lastPhase).Seconds())
+		lastPhase = time.Now()
+	}
 	var nseq int64
 	enumInfo := []string{}
 	maxDepth := 0
 	runPlans := func(plans []plan) {
 		for _, pl := range plans {
 			for _, fr := range pl.frames {
-				cnt, ok := enumerate(fr, pl.alphaName, pl.alpha, pl.n, pl.allModes)
+				modes, family := pl.modes, pl.family
+				if modes == nil {
+					modes = modesFor(fr, pl.allModes)
+				}
+				if family == "" {
+					family = "enum-" + pl.alphaName
+				}
+				cnt, ok := enumerate(fr, family, pl.alpha, pl.n, modes)
 				nseq += cnt
 				if pl.n >= 3 {
-					enumInfo = append(enumInfo, fmt.Sprintf("%s/%s/len=%d/modes=%d: %d sequences complete=%v", pl.alphaName, fr.name, pl.n, len(modesFor(fr, pl.allModes)), cnt, ok))
+					enumInfo = append(enumInfo, fmt.Sprintf("%s/%s/len=%d/modes=%d: %d sequences complete=%v", pl.alphaName, fr.name, pl.n, len(modes), cnt, ok))
 				}
 				if ok {
 					r.Distinct(fmt.Sprintf("plan:%s:%s:%d", pl.alphaName, fr.name, pl.n))
@@ -943,15 +1072,17 @@ func main() {
 		}
 	}
 	runPlans(plans)
+	phase("enumeration")
 	enumEvals := r.Evals()
 
 	// corpus mutations
 	corpus := loadCorpus(repo)
+	phase("corpus load")
 	if len(corpus) < 100 {
 		r.HarnessError("corpus not found under %s (%d files)", repo, len(corpus))
 	}
 	var sel []corpusFile
-	if os.Getenv("C21_BENCH") != "" || os.Getenv("C21_ONLY") == "enum" {
+	if os.Getenv("C21_BENCH") != "" || only == "enum" || only == "cmt" || only == "ladder" {
 		sel = corpus[:1]
 	} else if r.Quick() {
 		// quick: every 4th file, at most 2 KB; deletions + duplications
@@ -973,13 +1104,20 @@ func main() {
 			sel[i], sel[j] = sel[j], sel[i]
 		}
 	}
-	var nmut, filesDone atomic.Int64
+	var nmut, nlinedir, filesDone atomic.Int64
 	r.ParFor(len(sel), func(i int) {
 		var t tally
 		cf := sel[i]
 		doSubst := r.Thorough() && len(cf.src) <= 1<<10
-		n, ok := mutateFile(cf, true, doSubst, &t)
+		n, ok := int64(0), true
+		if only != "linedir" {
+			n, ok = mutateFile(cf, true, doSubst, &t)
+		}
 		nmut.Add(n)
+		if ok {
+			n, ok = lineDirFile(cf, &t) // one inserted line directive (comments.go)
+			nlinedir.Add(n)
+		}
 		if ok {
 			filesDone.Add(1)
 			r.Distinct("file:" + cf.rel)
@@ -990,8 +1128,15 @@ func main() {
 		exhaustive = false
 	}
 	enumEvals -= r.Evals()
+	phase("corpus mutations")
 	runPlans(late)
 	enumEvals += r.Evals()
+	phase("late enumeration")
+	lad := <-ladderCh // (its evaluations are flushed by ladderPhase before it returns)
+	phase("waiting for ladder workers")
+	if !lad.complete {
+		exhaustive = false
+	}
 	flushClasses()
 	r.Sample(map[string]any{"frame": "file", "src": "package p; func ( x ) x [ x any ] ( ) { }", "modes": fileModes})
 	r.Sample(map[string]any{"corpus_files_selected": len(sel), "corpus_files_total": len(corpus), "first": sel[0].rel})
@@ -1004,7 +1149,7 @@ func main() {
 		"reference = agreement of go1.25.9 go/parser (toolchain) and a verbatim go1.23.5 copy; inputs where the two disagree are undecided (counted in outcome_histogram)",
 		"the callback is installed after parser.init has scanned the leading comments and first token; the callback oracle starts from there",
 		"inputs beyond the stated sequence length / alphabet and beyond single-token mutations of the corpus are not covered")
-	states := nseq + nmut.Load()
+	states := nseq + nmut.Load() + nlinedir.Load() + lad.cases
 	r.Finish("fork result (AST incl. positions, comments, scopes, objects; scanner.ErrorList) == stdlib result wherever go1.23.5 and go1.25.9 agree; no panic; callback is a pure observer of the scanner stream",
 		exhaustive, map[string]any{
 			"states":                        states,
@@ -1014,6 +1159,12 @@ func main() {
 			"token_sequences":               nseq,
 			"enum_evaluations":              enumEvals,
 			"corpus_mutants":                nmut.Load(),
+			"corpus_line_directive_inserts": nlinedir.Load(),
+			"ladder_cases":                  lad.cases,
+			"ladder_classes":                lad.classes,
+			"ladder_classes_1e5_scale":      lad.deepClasses,
+			"ladder_classes_skipped":        lad.skipped,
+			"ladder_trip_points":            lad.trips,
 			"corpus_files":                  len(sel),
 			"parses":                        nParses.Load(),
 			"decided":                       nDecided.Load(),
